@@ -329,6 +329,7 @@ package sender
 //@   at[C15,C14] (*rsyncwire.Buffer).WriteInt32@6: assert [rdev-exactly-when-receiver-expects-it] rdevOnWire(s.st.Opts.preserve_devices != 0, s.st.Opts.preserve_specials != 0, mode)
 //@   at[C15,C14] (*rsyncwire.Buffer).WriteInt32@7: assert [link-target-exactly-when-receiver-expects-it] s.st.Opts.preserve_links != 0 && mdIsLink(mode)
 //@   at[C15,C14] (*rsyncwire.Buffer).WriteString@3: assert [entry-up-to-link] s.st.Opts.always_checksum != 0 && select(ghost.bufacc, addr(s.fec.buf)) == entryUpToLink(s, flags, name, size, data(info), mode, path)
+//@   at[C15,C14] (*rsyncwire.Conn).WriteString: assert [checksum-exactly-under-c] s.st.Opts.always_checksum != 0 ==> accPrefix(select(ghost.bufacc, addr(s.fec.buf))) == entryUpToLink(s, flags, name, size, data(info), mode, path) && isStrTok(accLast(select(ghost.bufacc, addr(s.fec.buf))))
 //@   at[C15,C14] (*rsyncwire.Conn).WriteString: assert [entry-as-protocol-27] s.st.Opts.always_checksum == 0 ==> select(ghost.bufacc, addr(s.fec.buf)) == entryUpToLink(s, flags, name, size, data(info), mode, path)
 //@   at[C15] (*rsyncwire.Buffer).WriteInt64: assert [head-then-length] select(ghost.bufacc, addr(s.fec.buf)) == entryHead(flags, name) && flags == 64 + ite(path == ".", 1, 0)
 //@   at[C15] (*rsyncwire.Buffer).WriteInt32@3: assert [then-mode] select(ghost.bufacc, addr(s.fec.buf)) == accApp(entryLen(entryHead(flags, name), size), valEnc(typeid("int32"), wrap32s(infoMSec(data(info)))))
